@@ -33,6 +33,10 @@ type tapOp struct {
 	Thresh uint16
 	Bg     *cptvframe.Frame
 	Err    bool
+	// frames of budget in the bucket when the processor asked for the recording, and the id of
+	// the first frame it then wrote (-1: none yet)
+	Budget     int64
+	FirstWrite int
 }
 
 // tapRecorder sits between the processor and the throttle and records what the
@@ -41,16 +45,26 @@ type tapRecorder struct {
 	next   recorder.Recorder
 	frame  *int
 	starts []tapOp
+	th     *ThrottledRecorder
 }
 
 func (t *tapRecorder) StopRecording() error { return t.next.StopRecording() }
 func (t *tapRecorder) StartRecording(bg *cptvframe.Frame, th uint16) error {
+	budget := int64(-1)
+	if t.th != nil {
+		budget = t.th.bucket.Available()
+	}
 	err := t.next.StartRecording(bg, th)
-	t.starts = append(t.starts, tapOp{Frame: *t.frame, Thresh: th, Bg: bg, Err: err != nil})
+	t.starts = append(t.starts, tapOp{Frame: *t.frame, Thresh: th, Bg: bg, Err: err != nil, Budget: budget, FirstWrite: -1})
 	return err
 }
-func (t *tapRecorder) WriteFrame(f *cptvframe.Frame) error { return t.next.WriteFrame(f) }
-func (t *tapRecorder) CheckCanRecord() error               { return t.next.CheckCanRecord() }
+func (t *tapRecorder) WriteFrame(f *cptvframe.Frame) error {
+	if n := len(t.starts); n > 0 && t.starts[n-1].FirstWrite < 0 {
+		t.starts[n-1].FirstWrite = f.Status.FrameCount
+	}
+	return t.next.WriteFrame(f)
+}
+func (t *tapRecorder) CheckCanRecord() error { return t.next.CheckCanRecord() }
 
 // scriptedBase: the storage layer with a disk check that fails during scripted
 // frame windows and starts that fail at random.
@@ -88,7 +102,7 @@ func (b *scriptedBase) StopRecording() error {
 func TestVerif_ThrottleComposition(t *testing.T) {
 	prop := os.Getenv("VERIF_PROP")
 	switch prop {
-	case "C04", "C05", "C06", "C12", "C15":
+	case "C01", "C02", "C04", "C05", "C06", "C12", "C15":
 	default:
 		prop = "C06"
 	}
@@ -143,7 +157,7 @@ func TestVerif_ThrottleComposition(t *testing.T) {
 			}
 			tc := &config.ThermalThrottler{Activate: true, BucketSize: time.Duration(cfg.BucketSecs) * time.Second, MinRefill: cfg.Refill}
 			th := NewThrottledRecorderWithClock(base, tc, cfg.MinSecs, r.events, r.clock, tCam{6, 5, cfg.FPS})
-			tap := &tapRecorder{next: th, frame: &frame}
+			tap := &tapRecorder{next: th, frame: &frame, th: th}
 			mc := &config.ThermalMotion{DynamicThreshold: dynamic, TempThresh: 2900, DeltaThresh: 10, CountThresh: 1, FrameCompareGap: 1, UseOneDiffOnly: true, TriggerFrames: rng.Range(1, 2), EdgePixels: 0}
 			rc := &recorder.RecorderConfig{MinSecs: minS, MaxSecs: maxS, PreviewSecs: prevS, Window: window.Window{NoWindow: true}}
 			cam := tCam{6, 5, cfg.FPS}
@@ -178,6 +192,45 @@ func TestVerif_ThrottleComposition(t *testing.T) {
 				if _, w := boundCheck(base.ops, cfg); w != "" {
 					c.Violation("bucket-bound-exceeded", "composition with faults", w)
 					return
+				}
+			}
+			// C01: whatever the throttle does, a file handed to storage holds consecutive frames
+			if prop == "C01" {
+				prev, open := -1, false
+				for _, op := range base.ops {
+					switch {
+					case op.Op == 'S' && !op.Err:
+						open, prev = true, -1
+					case op.Op == 'P':
+						open = false
+					case op.Op == 'W' && open:
+						if prev >= 0 && op.Seq != prev+1 {
+							c.Violation("gap-or-disorder", "behind the throttle", fmt.Sprintf("a file handed to storage holds frame %d directly after frame %d", op.Seq, prev))
+							return
+						}
+						prev = op.Seq
+					}
+				}
+			}
+			// C02: when the budget covers a minimum recording the file opens with the processor's
+			// first pre-trigger frame, on the frame of the trigger
+			if prop == "C02" {
+				for _, ts := range tap.starts {
+					if ts.Err || ts.Budget < th.minRecordingLength || ts.FirstWrite < 0 {
+						continue
+					}
+					first := -1
+					for k, op := range base.ops {
+						if base.opFrames[k] == ts.Frame && op.Op == 'W' && !op.Err {
+							first = op.Seq
+							break
+						}
+					}
+					if first != ts.FirstWrite {
+						c.Violation("wrong-first-frame", "behind the throttle", fmt.Sprintf("recording triggered at frame %d with %d frames of budget (a minimum recording needs %d): the processor's first pre-trigger frame is %d, the first frame stored on that frame is %d (-1: none)", ts.Frame, ts.Budget, th.minRecordingLength, ts.FirstWrite, first))
+						return
+					}
+					c.Count("starts_within_budget_checked", 1)
 				}
 			}
 			// C04: the processor may only believe a recording started when the disk check passed on that frame
